@@ -6,7 +6,10 @@
    status.  Call trees: every node is a Python function invoked by its parent
    through one of malt's wrappers; it observes the current context before its
    first child and after every child, may raise at any position, and may swallow
-   the exceptions of its children. *)
+   the exceptions of its children.  A callee may also be an inner function of
+   converted code (KNested / KNestedG): a def nested in a converted entity, whose
+   function scope is generated with the options the code generator picks for
+   nested definitions (t_scope_user_requested, from converters/functions.py). *)
 From Coq Require Import List Bool Arith.
 Import ListNotations.
 Require Import MV.Ctx.CtxSyntax.
@@ -43,8 +46,15 @@ Inductive kind : Set :=
 | KScope (user_requested : bool)                 (* with FunctionScope(.., options): f(...) *)
 | KLambdaScope (user_requested : bool)           (* with_function_scope(lambda scope: f(...), .., options) *)
 | KToGraph (recursive : bool)                    (* to_graph(f, recursive)(...) *)
-| KArtifact.                                     (* autograph_artifact(f)(...), or an inner function handed out by converted
+| KArtifact                                      (* autograph_artifact(f)(...), or an inner function handed out by converted
                                                     code: carries autograph_info__, enters nothing *)
+| KNested (user_requested recursive : bool)      (* inner(...), where inner is a function definition NESTED in an entity that
+                                                    was converted through convert(recursive, user_requested) and handed
+                                                    inner out (closure / callback): inner's body `return f(...)` runs inside
+                                                    the function scope the code generator gave the nested def; it may be
+                                                    called from anywhere (the converted entity, a do_not_convert region,
+                                                    a with-block, plain code) *)
+| KNestedG (recursive : bool).                   (* the same, the entity converted through to_graph(entity, recursive) *)
 
 Inductive tree : Set :=
 | Node (lbl : nat) (k : kind)       (* k applied to the plain function f *)
@@ -68,7 +78,7 @@ Fixpoint art (t : tree) : bool :=
 Fixpoint wf_tree (t : tree) : bool :=
   match t with
   | Node _ _ _ _ _ children => forallb wf_tree children
-  | Wrap l t' => art t' && wf_tree t' && match l with KToGraph _ | KPlain => false | _ => true end
+  | Wrap l t' => art t' && wf_tree t' && match l with KToGraph _ | KPlain | KNested _ _ | KNestedG _ => false | _ => true end
   end.
 
 Record obs : Set := mkobs {
@@ -227,6 +237,21 @@ Definition call_converted (T : tables) (ur dyn : bool) (bodyf : bool -> M) : M :
 Definition invoke_convert (T : tables) (ur dyn : bool) (v : mval) (bodyf : bool -> M) : M :=
   exec_w T (mkenv v false) (t_convert T) (call_converted T ur dyn bodyf).
 
+(* user_requested flag of the options baked into the FunctionScope of the top-level function / of a nested function
+   definition of an entity converted with ConversionOptions(user_requested=ur, recursive=rc) *)
+Definition top_ur (T : tables) (ur rc : bool) : bool := t_scope_user_requested T false ur rc.
+Definition nested_ur (T : tables) (ur rc : bool) : bool := t_scope_user_requested T true ur rc.
+
+(* inner(...) for a nested def `def inner(..): return f(..)` of an entity converted with (ur, rc): the function-scope
+   template with the options chosen for nested definitions; inside it f is reached through
+   converted_call(f, .., fscope) with fscope.callopts = <those options>.call_options(): only a recursive conversion
+   (internal_convert_user_code = recursive) converts f, as an entity of its own, with the call options *)
+Definition invoke_nested (T : tables) (ur rc dyn : bool) (bodyf : bool -> M) : M :=
+  let sur := nested_ur T ur rc in
+  exec_w T (mkenv VNull sur) (t_converted_fn T)
+         (if rc then call_converted T (top_ur T (t_call_options_user_requested T sur) rc) dyn bodyf
+          else bodyf false).
+
 (* bodyf urconv arg call_status *)
 Definition invoke (T : tables) (k : kind) (dyn : bool) (bodyf : bool -> option ctx -> status -> M) : M := fun st =>
   let cs := cst (top_of (stk st)) in
@@ -237,23 +262,25 @@ Definition invoke (T : tables) (k : kind) (dyn : bool) (bodyf : bool -> option c
   | KWith c =>
       let (x, st1) := eval_cexpr c st in
       exec_w T (mkenv (VCtx x) false) (WWith WParam WBody) (bodyf false (Some x) cs) st1
-  | KConvert ur _ MNull => invoke_convert T ur dyn VNull (fun u => bodyf u None cs) st
-  | KConvert ur _ (MCtx c) =>
+  | KConvert ur rc MNull => invoke_convert T (top_ur T ur rc) dyn VNull (fun u => bodyf u None cs) st
+  | KConvert ur rc (MCtx c) =>
       let (x, st1) := eval_cexpr c st in
-      invoke_convert T ur dyn (VCtx x) (fun u => bodyf u (Some x) cs) st1
+      invoke_convert T (top_ur T ur rc) dyn (VCtx x) (fun u => bodyf u (Some x) cs) st1
   | KInternal c cbd ur =>
       let (x, st1) := eval_cexpr c st in
       match t_internal T (cst x) cbd with
-      | FConvert => invoke_convert T ur dyn (VCtx x) (fun u => bodyf u (Some x) cs) st1
+      | FConvert => invoke_convert T (top_ur T ur true) dyn (VCtx x) (fun u => bodyf u (Some x) cs) st1
       | FDoNotConvert => exec_w T env0 (t_do_not_convert T) (bodyf false (Some x) cs) st1
       | FUnspec => exec_w T env0 (t_unspecified T) (bodyf false (Some x) cs) st1
       end
   | KScope ur => exec_w T (mkenv VNull ur) (WWith WScope WBody) (bodyf ur None cs) st
   | KLambdaScope ur => exec_w T (mkenv VNull ur) (t_with_function_scope T) (bodyf ur None cs) st
-  | KToGraph _ =>
+  | KToGraph rc =>
       if dyn then (ORaise, st)      (* no source code: to_graph itself raises *)
-      else exec_w T (mkenv VNull (t_to_graph_user_requested T)) (t_converted_fn T)
-                  (bodyf (t_to_graph_user_requested T) None cs) st
+      else exec_w T (mkenv VNull (top_ur T (t_to_graph_user_requested T) rc)) (t_converted_fn T)
+                  (bodyf (top_ur T (t_to_graph_user_requested T) rc) None cs) st
+  | KNested ur rc => invoke_nested T ur rc dyn (fun u => bodyf u None cs) st
+  | KNestedG rc => invoke_nested T (t_to_graph_user_requested T) rc dyn (fun u => bodyf u None cs) st
   end.
 
 (* wrapper l applied to a callable that is already an artifact (art = true for every tree the harness
@@ -268,7 +295,7 @@ Definition layer_convert (T : tables) (artf : bool) (v : mval) (body : M) : M :=
 
 Definition invoke_layer (T : tables) (l : kind) (artf : bool) (body : M) : M := fun st =>
   match l with
-  | KPlain | KArtifact | KToGraph _ => body st
+  | KPlain | KArtifact | KToGraph _ | KNested _ _ | KNestedG _ => body st
   | KDoNotConvert => layer_dnc T artf body st
   | KUnspec => layer_unspec T artf body st
   | KWith c =>
